@@ -16,6 +16,9 @@ ASSUMPTIONS = [
 
 BLOCK = ['xor', 'or', 'maj', 'eq', 'neq', 'one']
 LINEAR = ['exact', 'atleast', 'atmost', 'anybut']
+# the general form behind them, called directly with each of its six documented operators
+LINOPS = {'lin<': '<', 'lin>': '>', 'lin<=': '<=', 'lin>=': '>=', 'lin==': '==', 'lin!=': '!='}
+LINEAR = LINEAR + sorted(LINOPS)
 MAXV = 20
 
 
@@ -93,6 +96,9 @@ def apply(F, t):
         return cnfgen.AtMostKSubstitution(F, t['k'], t['K'])
     if name == 'anybut':
         return cnfgen.AnythingButKSubstitution(F, t['k'], t['K'])
+    if name in LINOPS:
+        from cnfgen.transformations.substitutions import LinearSubstitution
+        return LinearSubstitution(F, t['k'], fresh(LINOPS[name]), t['K'])
     if name == 'ite':
         return cnfgen.IfThenElseSubstitution(F)
     if name == 'lift':
@@ -110,6 +116,8 @@ def _cli_tokens(t, ctx):
     name = t['name']
     if name in BLOCK:
         return [name, t['k']]
+    if name in LINOPS:
+        return None                  # no command line form
     if name in LINEAR:
         return None if t['K'] < 1 else [name, t['k'], t['K']]
     if name in ('ite', 'flip'):
@@ -144,6 +152,8 @@ def apply_cli(fc, t, t0=None):
     with catalog.Ctx() as ctx:
         if name in BLOCK:
             toks = [name, t['k']]
+        elif name in LINOPS:
+            return None
         elif name in LINEAR:
             if t['K'] < 1:
                 return None             # the parser takes positive thresholds only
@@ -211,6 +221,19 @@ def gadget(N, name, t, masks):
         return tt.at_most(N, masks, t['K'])
     if name == 'anybut':
         return FULL & ~tt.exactly(N, masks, t['K'])
+    if name in LINOPS:
+        op, C = LINOPS[name], t['K']
+        if op == '==':
+            return tt.exactly(N, masks, C)
+        if op == '!=':
+            return FULL & ~tt.exactly(N, masks, C)
+        if op == '>=':
+            return tt.at_least(N, masks, C)
+        if op == '>':
+            return tt.at_least(N, masks, C + 1)
+        if op == '<=':
+            return tt.at_most(N, masks, C)
+        return tt.at_most(N, masks, C - 1)
     raise ValueError(name)
 
 
@@ -222,7 +245,9 @@ def run_case(case):
         # the input is itself the result of a transformation (judged on its own by the cases without 'first'):
         # its variable names are the ones the transformations generate
         F = apply(F, t0)
-        if F.number_of_variables() * max(1, expected_vars(1, t)) > 60 or len(F) > 400:
+        per = 2 ** (max(1, t.get('k', 2)) - 1) if t['name'] not in ('flip', 'ite') else 2
+        est = sum(per ** len(c) for c in F)
+        if F.number_of_variables() * max(1, expected_vars(1, t)) > 16 or len(F) > 400 or est > 3000:
             return Outcome(nontrivial=False, labels=['too-large'])
     n = F.number_of_variables()
     before = [list(c) for c in F]
@@ -612,7 +637,7 @@ def enum_many_graphs(tier):
 
 SUBCHECKS = [
     SubCheck('compose', run_case, strategy=strat_case, enumerate_cases=enum_cases, quick=1200, thorough=60000,
-             rule="CNFs with 1..4 variables (a quarter with caller-chosen labels that repeat or equal another variable's default name), 0..4 clauses of width 0..3 (0..6 for arity<=2) (empty clause, unused variables, repeated/opposite literals) and small php/op/Tseitin instances x every exported substitution (k in 1..4, thresholds 0..k+1; positional or with the documented parameter names as keywords; a third of the cases through `cnfgen dimacs <file> -T ...` on a harness-written file, formulas without clauses included), if-then-else, lifting k<=3, flip, xor/maj compression with arbitrary bipartite graphs; a third of the small cases and an enumerated grid (11 x 11 small transformations on four tiny formulas, library and `-T a -T b`) take as input the result of a first transformation - the same one applied twice included - so that the names met are the generated ones (caller-chosen labels also imitate them: X_{1}, Y_{1}, Z_{1}); complete slice: all formulas on <=2 variables with <=2 clauses x all transformations; oracle: tt(G) == F evaluated on the gadget-induced assignment for every assignment (lifting: and exactly one selector), variable count as documented; non-trivial: a non-empty clause and a non-constant gadget",
+             rule="CNFs with 1..4 variables (a quarter with caller-chosen labels that repeat or equal another variable's default name), 0..4 clauses of width 0..3 (0..6 for arity<=2) (empty clause, unused variables, repeated/opposite literals) and small php/op/Tseitin instances x every exported substitution (k in 1..4, thresholds 0..k+1; also the general LinearSubstitution(F, k, op, C) called directly with each of its six documented operators; positional or with the documented parameter names as keywords; a third of the cases through `cnfgen dimacs <file> -T ...` on a harness-written file, formulas without clauses included), if-then-else, lifting k<=3, flip, xor/maj compression with arbitrary bipartite graphs; a third of the small cases and an enumerated grid (11 x 11 small transformations on four tiny formulas, library and `-T a -T b`) take as input the result of a first transformation - the same one applied twice included - so that the names met are the generated ones (caller-chosen labels also imitate them: X_{1}, Y_{1}, Z_{1}); complete slice: all formulas on <=2 variables with <=2 clauses x all transformations; oracle: tt(G) == F evaluated on the gadget-induced assignment for every assignment (lifting: and exactly one selector), variable count as documented; non-trivial: a non-empty clause and a non-constant gadget",
              required_labels=BLOCK + LINEAR + ['ite', 'lift', 'flip', 'xorcomp', 'majcomp', 'empty-clause',
                                               'unused-variable', 'opposite-literals', 'threshold-at-boundary',
                                               'variable-without-neighbours', 'php', 'op', 'through-cnfgen', 'through-cnfgen-no-clauses', 'keyword-call', 'repeated-variable-names',
